@@ -80,6 +80,90 @@ func rawLineLengths(file string) []int {
 	return out
 }
 
+// rawClaims: the offset each stored line CLAIMS (what `send` assigned to it), read from the raw file -
+// the reader hands out positions whatever the lines claim, so reading back cannot show them
+func rawClaims(file string) []int64 {
+	f, err := os.Open(file)
+	if err != nil {
+		panic(err)
+	}
+	defer f.Close()
+	var out []int64
+	r := bufio.NewReaderSize(f, 1<<20)
+	for {
+		line, err := r.ReadBytes('\n')
+		if len(line) > 0 {
+			var v struct {
+				Offset *int64 `json:"offset"`
+			}
+			if json.Unmarshal(line, &v) == nil && v.Offset != nil {
+				out = append(out, *v.Offset)
+			} else {
+				out = append(out, -1)
+			}
+		}
+		if err != nil {
+			break
+		}
+	}
+	return out
+}
+
+// c16PollThenSend: handles that poll between their sends (what a node does: it reads the board with
+// the very handle it posts with) while another handle appends: every entry must still be assigned
+// its position
+func c16PollThenSend(c *Ctx, fail func(kind, what string, rep map[string]interface{})) {
+	dir := filepath.Join(c.OutDir, "board-poll-send")
+	os.MkdirAll(dir, 0755)
+	file, lock := filepath.Join(dir, "board"), filepath.Join(dir, "lock")
+	open := func() storage.Storage {
+		h, err := file_storage.NewFileStorage(file, lock)
+		if err != nil {
+			panic(err)
+		}
+		return h
+	}
+	a, b := open(), open()
+	defer a.Close()
+	defer b.Close()
+	n := 0
+	send := func(h storage.Storage, who string) {
+		ms := []storage.Message{{DkgRoundID: "r", Event: fmt.Sprintf("%s-%d", who, n), Data: []byte("x"), SenderAddr: who}}
+		if err := h.Send(ms...); err != nil {
+			panic(err)
+		}
+		if ms[0].Offset != uint64(n) {
+			fail("assigned-offset-not-position", fmt.Sprintf("Send returned offset %d for the entry at position %d (handle %s, after it had polled)", ms[0].Offset, n, who),
+				map[string]interface{}{"position": n, "assigned": ms[0].Offset, "handle": who})
+		}
+		n++
+	}
+	script := "AABBAqBApABqBBpAqpAB" // A/B = send through that handle, p/q = handle A/B polls the board
+	for _, ch := range script {
+		switch ch {
+		case 'A':
+			send(a, "A")
+		case 'B':
+			send(b, "B")
+		case 'p', 'q':
+			h := a
+			if ch == 'q' {
+				h = b
+			}
+			if _, err := h.GetMessages(0); err != nil {
+				panic(err)
+			}
+		}
+	}
+	for i, cl := range rawClaims(file) {
+		if cl != int64(i) {
+			fail("offset-not-position", fmt.Sprintf("the stored entry at position %d claims offset %d", i, cl), map[string]interface{}{"position": i, "claim": cl, "scenario": "poll-then-send"})
+			break
+		}
+	}
+	c.Case("poll-then-send", true, "skip c16pollsend", "skip c16pollsend")
+}
+
 func scenarioC16(c *Ctx) {
 	fail := func(kind, what string, rep map[string]interface{}) {
 		c.Fail(Failure{Property: "C16", Kind: kind, Signature: map[string]interface{}{"kind": kind}, What: what, Replay: rep})
@@ -156,9 +240,14 @@ func scenarioC16(c *Ctx) {
 		}
 		seen := map[string]int{}
 		next := make([]int, r.writers)
+		claims := rawClaims(file)
 		for i, m := range all {
-			if m.Offset != uint64(i) {
-				fail("offset-not-position", fmt.Sprintf("the entry at position %d carries offset %d", i, m.Offset), rep)
+			if m.Offset != uint64(i) || i >= len(claims) || claims[i] != int64(i) {
+				cl := int64(-1)
+				if i < len(claims) {
+					cl = claims[i]
+				}
+				fail("offset-not-position", fmt.Sprintf("the entry at position %d carries offset %d (stored claim %d)", i, m.Offset, cl), rep)
 				break
 			}
 			seen[m.Event]++
@@ -209,8 +298,9 @@ func scenarioC16(c *Ctx) {
 			got, err := h.GetMessages(uint64(k))
 			h.Close()
 			var offsStr, readStr []string
-			for _, m := range all {
-				offsStr = append(offsStr, strconv.FormatUint(m.Offset, 10))
+			for i := range all {
+				// what `send` assigned: the claim stored in the line
+				offsStr = append(offsStr, strconv.FormatInt(claims[i], 10))
 			}
 			obs := "error"
 			if err == nil {
@@ -286,6 +376,7 @@ func scenarioC16(c *Ctx) {
 	}
 	c.Case("over-limit", true, fmt.Sprintf("board 3 1 1 %d 2 2 %d 3 3 %d | 0 0 0", lens[0], lens[1], lens[2]), "board offsets="+strings.Join(offsObs, ",")+" read="+obs)
 	c16SparseLines(c, fail)
+	c16PollThenSend(c, fail)
 	c16RawFiles(c)
 }
 
